@@ -21,17 +21,17 @@ def load_property(pid):
     return props.PROPS[pid]
 
 
-def generate(pid, P):
-    """generate all obligations of a property from the current tree; returns (engine, per-function info)"""
+def _generate_group(pid, G):
+    """generate the obligations of one group (module list + contracts + lemmas) with a freshly populated registry"""
     from pyvc.registry import R
     from pyvc import stdlib     # noqa: F401  (registers the builtin encodings)
     from pyvc.engine import Engine, Module, Unsupported
-    for m in P["modules"]:
+    for m in G["modules"]:
         importlib.import_module(m)
     E = Engine(R)
     E.prop = pid
     funcs = []
-    todo = [n for n in P["contracts"]]
+    todo = [n for n in G["contracts"]]
     done = set()
     while todo:
         n = todo.pop(0)
@@ -49,7 +49,7 @@ def generate(pid, P):
                       "generated": ok, "obligations": len(E.obligations) - n0, "gen_s": round(time.time() - t0, 2)})
         for ob in E.obligations[n0:]:
             ob.func = n
-    for name in P.get("lemmas", []):
+    for name in G.get("lemmas", []):
         fn = R.lemmas[name]
         n0 = len(E.obligations)
         E.cur = type("L", (), {"name": "lemma:" + name})()
@@ -64,6 +64,44 @@ def generate(pid, P):
             ob.func = "lemma:" + name
         funcs.append({"function": "lemma:" + name, "generated": True, "obligations": len(E.obligations) - n0})
     return E, R, funcs
+
+
+def _reset_registry():
+    """a further group of contracts is generated against its own set of sidecar modules: empty the registry and forget the imported
+    sidecar modules, so that the assumed models of one group cannot leak into the other"""
+    from pyvc.registry import R
+    R.__init__()
+    for m in [m for m in sys.modules if m.startswith(("specs", "contracts")) or m == "pyvc.stdlib"]:
+        del sys.modules[m]
+    import pyvc
+    if hasattr(pyvc, "stdlib"):
+        delattr(pyvc, "stdlib")         # so that `from pyvc import stdlib` executes the module again and re-registers the builtins
+
+
+def generate(pid, P):
+    """generate all obligations of a property from the current tree; returns (engine, trusted-base text, per-function info)"""
+    groups = [{"modules": P["modules"], "contracts": P["contracts"], "lemmas": P.get("lemmas", [])}] + list(P.get("groups", []))
+    E0, tb, funcs = None, [], []
+    for i, G in enumerate(groups):
+        if i:
+            _reset_registry()
+        E, R, fs = _generate_group(pid, G)
+        for t in trusted_base(R, G, E):
+            if t not in tb:
+                tb.append(t)
+        funcs.extend(fs)
+        if E0 is None:
+            E0 = E
+        else:
+            E0.obligations.extend(E.obligations)
+            E0.unsupported.extend(E.unsupported)
+            E0.feas_checks += E.feas_checks
+            for k, v in E.stats.items():
+                E0.stats[k] = E0.stats.get(k, 0) + v
+    for t in P.get("trusted", []):
+        if t not in tb:
+            tb.append(t)
+    return E0, tb, funcs
 
 
 def trusted_base(R, P, E):
@@ -111,7 +149,7 @@ def main(argv=None):
     if args.replay:
         return replay_file(pid, P, args.replay)
     try:
-        E, R, funcs = generate(pid, P)
+        E, TB, funcs = generate(pid, P)
     except Exception:
         traceback.print_exc()
         print("CHECKER-ERROR property=%s (generation crashed)" % pid)
@@ -270,7 +308,7 @@ def main(argv=None):
             "coverage": {
                 "obligations": len(real), "discharged": len(discharged),
                 "checker_cmd": "./check %s --tier %s" % (pid, tier),
-                "trusted_base": trusted_base(R, P, E),
+                "trusted_base": TB,
                 "functions_under_contract": funcs,
                 "by_backend": by_backend,
                 "solver_time_s": round(sum(ob.time for ob in real), 2),
@@ -337,6 +375,15 @@ def mutant_selftest(pid, P):
     import tempfile
     res = []
     pats = sorted(glob.glob(os.path.join(VERIF, "mutants", pid, "*.diff")) + glob.glob(os.path.join(VERIF, "seeded", pid + "*", "patch.diff")))
+    try:
+        # the reverse of every fix: commit recorded for this property must bring the violation back
+        for f in json.load(open(os.path.join(VERIF, "known_findings.json")))["findings"]:
+            if f.get("status") == "fixed" and f.get("property") == pid and f.get("regression_patch"):
+                rp = os.path.join(VERIF, f["regression_patch"])
+                if os.path.exists(rp) and rp not in pats:
+                    pats.append(rp)
+    except Exception:      # noqa
+        pass
     for patch in pats:
         d = tempfile.mkdtemp(prefix="pyvc_mut_")
         try:
